@@ -164,6 +164,18 @@ def r05_6(ctx):
             names = nfq.names(pc)
             ok = "self.bind_qname" in names and any(a.endswith("check_duplicate_attr") for a in names) and names.index("self.bind_qname") < [i for i, a in enumerate(names) if a.endswith("check_duplicate_attr")][0]
     ctx.ob("R05.6", "xml-duplicate-test-after-binding", ok, "a prefixed attribute is bound first and then checked against the (ns, local) set, unconditionally")
+    # ... on EVERY path on which the name may have a prefix, whatever the prefix or the namespace it resolves to
+    bad = None
+    k = 0
+    for pc in nfq.feasible(pcs):
+        pref = [v for g, v in pc["guards"].items() if re.fullmatch(r"p2\.prefix matches Some\(_\)(#\d+)?", g)]
+        if pref and not any(pref):
+            continue  # no prefix: the tokenizer's own duplicate test covers names without a namespace
+        k += 1
+        names = nfq.names(pc)
+        if not any(a.endswith("check_duplicate_attr") for a in names):
+            bad = "a path on which the attribute has a prefix (%s) skips the duplicate test: two attributes with the same expanded name reach the sink" % [g for g in pc["guards"]][:3]
+    ctx.ob("R05.6", "xml-duplicate-test-on-every-prefixed-path", bad is None and k >= 1, bad or "%d path(s) with a prefix, each runs check_duplicate_attr" % k)
     key, pcs = nfq.cells(ctx, "xml_tree_builder", "::check_duplicate_attr")
     # the membership test is made with the pair (ns, local): either `contains(key)` before `insert(key)` or the answer of `insert(key)` itself
     keyed = any("(p2.ns,p2.local)" in str(pc["actions"]) + str(list(pc["guards"])) + str(pc["ret"]) for pc in pcs)
